@@ -9,9 +9,9 @@ Property theorems only (helper lemmas live in `Lemmas/Geometry*.lean`). The inde
 specialisations), `util.subarray`, `helper.boundary_slice`, `helper.slice_offset` and the hex-grid tables are the
 *generated* kernel (`Gen.*`, re-translated from the source on every run); the array plumbing is `Model/Geometry.lean`.
 
-Not proved here (checked on the real code by the oracle of tools/harness/c20.py only): hexagonal segments are clear of the array
-border and of equal area up to edge sampling. Non-overlap for `seg_gap > 0` is proved on the real-valued model
-(`hex_disjoint_pos_gap`); float rounding of the edge test is covered by the oracle only. -/
+Not proved here (checked on the real code by the oracle of tools/harness/c20.py only): segments are of equal area up to edge
+sampling. Non-overlap for `seg_gap > 0` and border clearance for `pad ≥ 2` are proved on the real-valued model
+(`hex_disjoint_pos_gap`, `hex_clear_of_border`); float rounding of the edge test is covered by the oracle only. -/
 namespace Lentil.C20
 open Lentil Finset
 variable {K : Type}
@@ -561,6 +561,34 @@ theorem hex_disjoint_pos_gap {K : Type} [Field K] [LinearOrder K] [IsStrictOrder
   cases rotate
   · exact hex_disjoint_unrotated half hh R g sinT cosT n a b i j hhpos hR hg (by simpa using hT) ha hb hab
   · exact hex_disjoint_rotated half hh R g sinT cosT n a b i j hhpos hR hg (by simpa using hT) ha hb hab
+
+/-- **segments are clear of the array border** (default `pad ≥ 2`, both orientations, any gap ≥ 0): a pixel of the segment drawn at a
+cell within cube distance `k = rings` has row and column index in `[1, size − 2]`, where `size` is any integer at least
+`(2k+1)·2·inner + 2k·g + 2·pad` (the code takes the ceiling of exactly that). `hh` stands for `√3/2` and only `5/6 ≤ hh ≤ 1` is used
+(`sqrt3_half_bounds`). Extents: a hexagon reaches `inner` across its flats and `R` across its vertices; the centres lie within
+`2k·(R+g/2)·hh` resp. `(3/2)k·(R+g/2)` of the array centre `⌊size/2⌋`. -/
+theorem hex_clear_of_border {K : Type} [Field K] [LinearOrder K] [IsStrictOrderedRing K]
+    (half hh R g pad : K) (sinT cosT : Nat → K) (size : Int) (k : Nat) (a : HexCell) (i j : Int) (rotate : Bool)
+    (hh56 : 5 / 6 ≤ hh) (hh1 : hh ≤ 1) (hR : 0 ≤ R) (hg : 0 ≤ g) (hpad : 2 ≤ pad) (hk : 1 ≤ k)
+    (hsize : ((2 * k + 1 : ℕ) : K) * (R * hh) * 2 + ((2 * k : ℕ) : K) * g + pad * 2 ≤ (size : K))
+    (hT : if rotate then
+            (sinT 0 = 0 ∧ cosT 0 = 1 ∧ sinT 1 = hh ∧ cosT 1 = 1 / 2 ∧ sinT 2 = hh ∧ cosT 2 = -(1 / 2) ∧
+             sinT 3 = 0 ∧ cosT 3 = -1 ∧ sinT 4 = -hh ∧ cosT 4 = -(1 / 2) ∧ sinT 5 = -hh ∧ cosT 5 = 1 / 2)
+          else
+            (sinT 0 = 1 / 2 ∧ cosT 0 = hh ∧ sinT 1 = 1 ∧ cosT 1 = 0 ∧ sinT 2 = 1 / 2 ∧ cosT 2 = -hh ∧
+             sinT 3 = -(1 / 2) ∧ cosT 3 = -hh ∧ sinT 4 = -1 ∧ cosT 4 = 0 ∧ sinT 5 = -(1 / 2) ∧ cosT 5 = hh))
+    (hcell : a ∈ segCells k)
+    (hin : hexagonAt half (R * hh) sinT cosT size size (hexToRC (2 * hh) hh (3 / 2) a (R + g / 2) rotate).1
+          (hexToRC (2 * hh) hh (3 / 2) a (R + g / 2) rotate).2 false i j = 1) :
+    (1 ≤ i ∧ i ≤ size - 2) ∧ (1 ≤ j ∧ j ≤ size - 2) := by
+  have ha := segCells_sum k a hcell
+  have hb := segCells_bounds k a hcell
+  cases rotate
+  · exact hex_border_unrotated half hh R g pad sinT cosT size k a i j hh56 hh1 hR hg hpad hk hsize (by simpa using hT) ha hb hin
+  · exact hex_border_rotated half hh R g pad sinT cosT size k a i j hh56 hh1 hR hg hpad hk hsize (by simpa using hT) ha hb hin
+
+/-- the real constant: `5/6 ≤ √3/2 ≤ 1` -/
+theorem sqrt3_half_in_range : (5 : ℝ) / 6 ≤ √3 / 2 ∧ √3 / 2 ≤ 1 ∧ 0 < √3 / 2 := sqrt3_half_bounds
 
 /-- the edge-normal tables assumed by `hex_disjoint_pos_gap` are the sines and cosines `lentil.hexagon` evaluates, with
 `hh = √3/2`: `θₙ = n·π/3 + π/6` (unrotated) and `θₙ = n·π/3` (rotated) -/
